@@ -102,7 +102,8 @@ func (a Accounter) Handle(response tq.Response, request tq.Request) {
 	}
 
 	// log accounting data
-	a.sink.Printf(string(jsonLog))
+	// the record is data, never a format string: a '%' in a field must reach the sink verbatim
+	a.sink.Printf("%s", jsonLog)
 
 	// start/stop/watchdog don't actually log anything, this is up to you
 	switch body.Flags {
